@@ -71,6 +71,8 @@ func call(ctx context.Context, m *c.ModSpec, mod api.Module, cl []uint64, io *In
 	res, err := mod.ExportedFunction(fmt.Sprintf("f%d", fi)).Call(ctx, cl[1:]...)
 	if err != nil {
 		io.Obs = append(io.Obs, c.CallObs{Trap: c.TrapClass(err)})
+	} else if len(m.Hosts) == 0 {
+		io.Obs = append(io.Obs, c.CallObs{Res: c.MaskRes(res, []byte{c.I32})})
 	} else {
 		io.Obs = append(io.Obs, c.CallObs{Res: c.MaskRes(res, m.FuncSig(fi).R)})
 	}
@@ -191,6 +193,37 @@ func main() {
 		}
 		cases[i] = Case{ID: i, Store: m.CoqStore(), HRes: hres, N: ni, Sched: sched, Wasm: hex.EncodeToString(bin), Engines: map[string]EngObs{}}
 		mods[i], bins[i] = m, bin
+	}
+	// fixed case: per-instance values that are NOT module constants — a funcref global initialised by ref.func, used for
+	// an indirect call that bumps instance state; plus a passive data segment dropped in one instance and used in another
+	{
+		mm := &c.Mod{}
+		mm.Types = [][]byte{c.FT(nil, c.B(c.I32)), c.FT(c.B(c.I32), c.B(c.I32))}
+		mm.Funcs = [][]byte{c.U32(0), c.U32(0), c.U32(1), c.U32(0)}
+		mm.Tables = [][]byte{c.Cat(c.B(c.FuncRef, 0), c.U32(2))}
+		mm.Mems = [][]byte{c.MemLimits(1, nil)}
+		mm.Globals = [][]byte{c.Cat(c.B(c.I32, 1), c.I32Const(0), c.B(0x0b)), c.Cat(c.B(c.FuncRef, 0), c.B(0xd2), c.U32(0), c.B(0x0b))}
+		mm.Exports = [][]byte{c.Export("f4", 0, 0), c.Export("f5", 0, 1), c.Export("f6", 0, 2), c.Export("f7", 0, 3), c.Export("mem", 2, 0), c.Export("g0", 3, 0)}
+		mm.DataCount = true
+		mm.Datas = [][]byte{c.Cat(c.U32(1), c.U32(4), c.B(9, 8, 7, 6))} // passive
+		mm.Codes = [][]byte{
+			// f4 = bump: counter++; mem[0] = counter; return counter
+			c.Code(nil, c.GlobalGet(0), c.I32Const(1), c.B(0x6a), c.GlobalSet(0), c.I32Const(0), c.GlobalGet(0), c.B(0x36, 2, 0), c.GlobalGet(0)),
+			// f5 = run: table[0] = $fp; call_indirect table[0]
+			c.Code(nil, c.I32Const(0), c.GlobalGet(1), c.B(0x26, 0), c.I32Const(0), c.B(0x11, 0, 0)),
+			// f6(x) = memory.init seg0 to address 16 (traps if dropped); returns mem[16]
+			c.Code(nil, c.I32Const(16), c.I32Const(0), c.I32Const(4), c.B(0xfc, 8, 0, 0), c.I32Const(16), c.B(0x28, 2, 0)),
+			// f7 = data.drop 0
+			c.Code(nil, c.B(0xfc, 9, 0), c.I32Const(1)),
+		}
+		bin := mm.Bytes()
+		ms := &c.ModSpec{HasMem: true, Globals: []byte{c.I32}, GInit: []uint64{0}}
+		ms.Hosts = nil
+		ms.Funcs = []*c.FuncSpec{{Sig: c.Sig{R: []byte{c.I32}}}, {Sig: c.Sig{R: []byte{c.I32}}}, {Sig: c.Sig{P: []byte{c.I32}, R: []byte{c.I32}}}, {Sig: c.Sig{R: []byte{c.I32}}}}
+		// function indices in the schedule are offset by the (absent) host imports: exports are named f4..f7 for uniformity
+		sched := [][]uint64{{0, 5}, {1, 5}, {1, 5}, {0, 6, 0}, {1, 7}, {0, 6, 0}, {1, 6, 0}, {2, 5}, {2, 6, 0}, {0, 5}}
+		cases = append(cases, Case{ID: len(cases), Store: "", HRes: nil, N: 3, Sched: sched, Wasm: hex.EncodeToString(bin), Engines: map[string]EngObs{}})
+		mods, bins = append(mods, ms), append(bins, bin)
 	}
 	var wg sync.WaitGroup
 	var mu sync.Mutex
